@@ -272,6 +272,7 @@ def native_sequence(seed=0, linear=False, k_edit=3.0, container="set", assumptio
     if scale:
         # very precise sensors on a very small prior (values far below 1e-6): supplied noise must be used as supplied
         sc.sensor_noises = {kx: {r: v * scale for r, v in m.items()} for kx, m in sc.sensor_noises.items()}
+        sc.process_noise = {u: v * scale for u, v in sc.process_noise.items()}  # (and very quiet actuators: process noise far below 1e-6)
     try:
         cfg = {"innovation_filtering": k_edit}
         if cse is not None:
@@ -373,4 +374,59 @@ def native_sequence(seed=0, linear=False, k_edit=3.0, container="set", assumptio
                 problems.append(d)
     except Exception as e:
         problems.append(f"sequence raised {type(e).__name__}: {(str(e).splitlines() or [''])[0]}")
+    return problems, sc
+
+
+def native_dtypes(seed=0):
+    """Inputs of other dtypes than float64 (a State / Covariance / reading built with from_data from an integer or float32 array is a
+    finite input like any other): prediction and update of the real filter against the exact oracle at the same values; the results
+    must not be truncated or rounded to the input's dtype.  Returns (problems, scenario)."""
+    import numpy as np
+
+    sc = scenarios.Scenario(3, 1, 2, [2], seed=seed)
+    try:
+        py, ekf = scenarios.build_ekf(sc, config={"innovation_filtering": None})
+    except Exception as e:
+        return [f"constructing the filter for a valid definition raised {type(e).__name__}: {(str(e).splitlines() or [''])[0]}"], sc
+    rng = random.Random(seed + 41)
+    AS = sorted(sc.state, key=lambda s: s.name)
+    AU = sorted(sc.control, key=lambda s: s.name)
+    n = sc.n
+    pt = sc.point(seed)
+    for s in AS + AU:
+        pt[s] = Fraction(rng.choice([-3, -2, -1, 1, 2, 3]))  # integer-valued point
+    A = sympy.Matrix(n, n, lambda i, j: rng.randint(-2, 2))
+    P = A * A.T + sympy.eye(n) * 2  # integer SPD prior
+    key = sc.sensor_names[0]
+    rn = sorted(sc.sensor_models[key])
+    reading = {r: Fraction(rng.randint(-4, 4)) for r in rn}
+    sn_py = [str(a) for a in ekf.State._arglist]
+    idx = {a: i for i, a in enumerate(sn_py)}
+    order = [idx[s.name] for s in AS]
+    problems = []
+    for dtype in (np.int64, np.float32, np.int32):
+        tag = np.dtype(dtype).name
+        try:
+            x = np.zeros((n, 1), dtype=dtype)
+            for s in AS:
+                x[idx[s.name], 0] = int(pt[s])
+            Pm = np.zeros((n, n), dtype=dtype)
+            for i, a in enumerate(AS):
+                for j, b in enumerate(AS):
+                    Pm[idx[a.name], idx[b.name]] = int(P[i, j])
+            state = ekf.State.from_data(x)
+            cov = ekf.Covariance.from_data(Pm)
+            ctl = ekf.Control.from_data(np.array([[int(pt[u])] for u in sorted(sc.control, key=lambda s: str(s))], dtype=dtype)) if False else scenarios.named_control(ekf, sc, pt)
+            o = oracle(sc, pt, P, key, reading, None)
+            r = ekf.process_model(float(pt[sc.dt]), state, cov, ctl)
+            d = mat_diff(f"{tag} inputs: predicted state", r.state.data[order, :], o["state"]) or mat_diff(f"{tag} inputs: predicted covariance", r.covariance.data[np.ix_(order, order)], o["covariance"])
+            if d:
+                problems.append(d)
+            z = ekf.make_reading(key, data=np.array([[int(reading[rr])] for rr in [str(a) for a in type(ekf.make_reading(key))._arglist]], dtype=dtype))
+            u = ekf.sensor_model(state, cov, sensor_key=key, sensor_reading=z)
+            d = mat_diff(f"{tag} inputs: posterior state", u[0].data[order, :], o["x_post"]) or mat_diff(f"{tag} inputs: posterior covariance", u[1].data[np.ix_(order, order)], o["P_post"])
+            if d:
+                problems.append(d)
+        except Exception as e:
+            problems.append(f"{tag} inputs: {type(e).__name__}: {(str(e).splitlines() or [''])[0][:160]}")
     return problems, sc
